@@ -93,3 +93,140 @@ def inside_cell(rng: random.Random, built, n: int):
     q = [((x + 3 * cx) / 4, (y + 3 * cy) / 4) for x, y in p]
     g = Polygon(q)
     return g if g.is_valid and g.area > 0 else Point(cx, cy)
+
+
+# ----------------------------------------------------------------------------
+# Meshes whose node table / stored edge table have rows that no face uses, and selections by extent.
+#
+# UGRID does not promise that every row of the node table is a corner of a face, nor that every row of a
+# stored `edge_node_connectivity` is a side of one (a gauge node, a 1-D channel drawn into the same tables,
+# what is left after a face was deleted).  The property says "exactly the edges and nodes that belong to at
+# least one marked cell": such rows belong to no cell, so no selection - however large - may mark them, and
+# the kept rows after them must still be numbered contiguously.  Two independent classes are generated:
+#
+# * `add_loose_elements`: a mesh recipe with 1..3 extra nodes (placed at the front / in the middle / at the
+#   end of the node table, the faces renumbered accordingly) and, when the recipe stores an `edge_node` table,
+#   0..2 extra edges (between two loose nodes, a loose node and a mesh node, or two mesh nodes that are not
+#   the ends of a side) placed likewise in the edge table;
+# * `selection_extents`: face lists by extent - none, one, some, all but one, all faces.
+
+EXTENTS = ['none', 'one', 'some', 'all-but-one', 'all']
+
+
+def _place(rng: random.Random, n_old: int, k: int) -> list:
+    """positions (in the NEW table of n_old + k rows) of k inserted rows: front / middle / end mixed"""
+    n = n_old + k
+    pos: set = set()
+    styles = ['front', 'middle', 'end', 'anywhere']
+    rng.shuffle(styles)
+    for style in styles * 2:
+        if len(pos) == k:
+            break
+        if style == 'front':
+            p = 0
+        elif style == 'end':
+            p = n - 1
+        elif style == 'middle':
+            p = n // 2
+        else:
+            p = rng.randrange(n)
+        pos.add(p)
+    while len(pos) < k:
+        pos.add(rng.randrange(n))
+    return sorted(pos)
+
+
+def add_loose_elements(rng: random.Random, recipe: dict, n_nodes: int | None = None, n_edges: int | None = None) -> dict:
+    """a copy of a ugrid recipe with loose nodes (and loose edges when an edge_node table is stored);
+    `recipe['loose'] = {'nodes': [...], 'edges': [...]}` names the loose rows (ground truth)"""
+    from harness.gen import datasets as G
+    r = dict(recipe)
+    nodes = [list(p) for p in recipe['nodes']]
+    faces = [list(f) for f in recipe['faces']]
+    k = rng.choice([1, 1, 2, 3]) if n_nodes is None else n_nodes
+    taken = {tuple(p) for p in nodes}
+    xs, ys = [p[0] for p in nodes], [p[1] for p in nodes]
+    fresh = []
+    while len(fresh) < k:
+        # anywhere in or just outside the extent of the mesh (inside a face, on a side, outside): a position
+        # is only a position, a loose node is a corner of nothing
+        p = (rng.randint(min(xs) - 2, max(xs) + 2), rng.randint(min(ys) - 2, max(ys) + 2))
+        if p not in taken:
+            taken.add(p)
+            fresh.append(list(p))
+    at = _place(rng, len(nodes), k)
+    new_nodes: list = []
+    old_to_new: dict = {}
+    it_old = iter(range(len(nodes)))
+    fresh_it = iter(fresh)
+    for row in range(len(nodes) + k):
+        if row in at:
+            new_nodes.append(next(fresh_it))
+        else:
+            o = next(it_old)
+            old_to_new[o] = row
+            new_nodes.append(nodes[o])
+    faces = [[old_to_new[n] for n in f] for f in faces]
+    r['nodes'] = new_nodes
+    r['faces'] = faces
+    loose_nodes = list(at)
+    loose_edges: list = []
+    stored = 'edge_node' in r.get('enc', {}).get('tables', [])
+    if 'edges' in recipe and recipe['edges']:
+        edges = [tuple(old_to_new[n] for n in e) for e in recipe['edges']]
+    else:
+        edges = [tuple(e) for e in G.mesh_edges(faces)]
+    if stored:
+        ke = rng.choice([0, 1, 1, 2]) if n_edges is None else n_edges
+        have = {frozenset(e) for e in edges}
+        mesh_nodes = sorted({n for f in faces for n in f})
+        extra = []
+        for _ in range(40):
+            if len(extra) == ke:
+                break
+            kind = rng.choice(['loose-loose', 'loose-mesh', 'mesh-mesh'])
+            if kind == 'loose-loose' and len(loose_nodes) >= 2:
+                a, b = rng.sample(loose_nodes, 2)
+            elif kind == 'loose-mesh':
+                a, b = rng.choice(loose_nodes), rng.choice(mesh_nodes)
+            elif kind == 'mesh-mesh' and len(mesh_nodes) >= 2:
+                a, b = rng.sample(mesh_nodes, 2)
+            else:
+                continue
+            if frozenset((a, b)) in have:
+                continue
+            have.add(frozenset((a, b)))
+            extra.append((a, b) if rng.random() < 0.5 else (b, a))
+        at_e = _place(rng, len(edges), len(extra))
+        out, it_e, it_x = [], iter(edges), iter(extra)
+        for row in range(len(edges) + len(extra)):
+            out.append(next(it_x) if row in at_e else next(it_e))
+        edges = out
+        loose_edges = list(at_e)
+    if stored or recipe.get('edges'):
+        r['edges'] = [list(e) for e in edges]
+    r['loose'] = {'nodes': loose_nodes, 'edges': loose_edges}
+    return r
+
+
+def truth_edges(built):
+    """(edge count, face_edge rows) in the numbering the FILE defines, when it defines one: the rows of a stored
+    edge_node table are the edges (generator's ground truth, nothing read from emsarray); else None"""
+    enc = built.recipe.get('enc', {})
+    if 'edge_node' in enc.get('tables', []) and not enc.get('edge_tables_as_coords'):
+        return (len(built.extra['edges']), [list(row) for row in built.extra['face_edges']])
+    return None
+
+
+def selection_extents(rng: random.Random, nf: int) -> list:
+    """[(extent class, ascending face list)] - one list per extent class that exists for `nf` faces"""
+    out = [('none', [])]
+    if nf >= 1:
+        out.append(('one', [rng.randrange(nf)]))
+        out.append(('all', list(range(nf))))
+    if nf >= 2:
+        drop = rng.randrange(nf)
+        out.append(('all-but-one', [f for f in range(nf) if f != drop]))
+    if nf >= 4:
+        out.append(('some', sorted(rng.sample(range(nf), rng.randint(2, nf - 2)))))
+    return out
